@@ -91,6 +91,10 @@ impl Story {
 
             self.get_state_mut().reset_output(None);
 
+            // Starting a new line (not resuming a time-sliced one): forget what the
+            // previous look-ahead saw.
+            self.saw_lookahead_unsafe_function_after_new_line = false;
+
             // It's possible for ink to call game to call ink to call game etc
             // In this case, we only want to batch observe variable changes
             // for the outermost call.
@@ -108,7 +112,6 @@ impl Story {
         };
 
         let mut output_stream_ends_in_newline = false;
-        self.saw_lookahead_unsafe_function_after_new_line = false;
 
         loop {
             match self.continue_single_step() {
